@@ -133,12 +133,23 @@ func (k SettlementKeeper) CheckAdminPermission(ctx sdk.Context, tenantId uint64,
 	}
 
 	for _, admin := range tenant.Admins {
-		if admin == account {
+		if SameAccount(admin, account) {
 			return true
 		}
 	}
 
 	return false
+}
+
+// SameAccount reports whether two bech32 strings name the same account. Bech32 admits an
+// all-upper-case spelling of every address, so the strings themselves cannot be compared.
+func SameAccount(a, b string) bool {
+	if a == b {
+		return true
+	}
+	addrA, errA := sdk.AccAddressFromBech32(a)
+	addrB, errB := sdk.AccAddressFromBech32(b)
+	return errA == nil && errB == nil && addrA.Equals(addrB)
 }
 
 // GetPayoutPeriod returns the payout period of the tenant
